@@ -544,13 +544,9 @@ def _format_index(index_statistics):
             nullable=properties["nullable"],
             unique=properties["unique"],
             coerce=properties["coerce"],
-            name=(
-                "None"
-                if properties["name"] is None
-                else f"\"{properties['name']}\""
-            ),
-            description=(None if description is None else f'"{description}"'),
-            title=(None if title is None else f'"{title}"'),
+            name=repr(properties["name"]),
+            description=repr(description),
+            title=repr(title),
         )
         index.append(index_code.strip())
 
@@ -588,8 +584,8 @@ def to_script(dataframe_schema, path_or_buf=None):
             coerce=properties["coerce"],
             required=properties["required"],
             regex=properties["regex"],
-            description=(None if description is None else f'"{description}"'),
-            title=(None if title is None else f'"{title}"'),
+            description=repr(description),
+            title=repr(title),
         )
         columns[colname] = column_code.strip()
 
@@ -599,7 +595,7 @@ def to_script(dataframe_schema, path_or_buf=None):
         else _format_index(statistics["index"])
     )
 
-    column_str = ", ".join(f"'{k}': {v}" for k, v in columns.items())
+    column_str = ", ".join(f"{k!r}: {v}" for k, v in columns.items())
 
     script = SCRIPT_TEMPLATE.format(
         columns=column_str,
@@ -615,7 +611,7 @@ def to_script(dataframe_schema, path_or_buf=None):
         name=dataframe_schema.name.__repr__(),
         ordered=dataframe_schema.ordered,
         unique=dataframe_schema.unique,
-        report_duplicates=f'"{dataframe_schema.report_duplicates}"',
+        report_duplicates=repr(dataframe_schema.report_duplicates),
         unique_column_names=dataframe_schema.unique_column_names,
         add_missing_columns=dataframe_schema.add_missing_columns,
         title=dataframe_schema.title.__repr__(),
